@@ -188,6 +188,9 @@ def reach_summary():
     """lines of the repository's own modules executed by this check's workers / executable lines"""
     from . import cover
 
+    if os.environ.get("VT_COVER_DUMP"):  # development aid (tools/unreached.py): the raw line sets
+        with open(os.environ["VT_COVER_DUMP"], "w") as f:
+            json.dump({k: sorted(v) for k, v in COVER.items()}, f)
     out = {}
     for f, lines in sorted(COVER.items()):
         ex = cover.executable_lines(os.path.join(env.REPO, "tdgl", f))
